@@ -13,6 +13,9 @@ HDR_VALUES = ["1", "a b", "é", "x; y=z", "", "in\tner", "v" * 40]
 TEXTS = ["", "hello", "héllo wörld", "中文", "line1\nline2", "\U0001f600", "a" * 100]
 COOKIE_VALUES = ["v", "a b", "é", 'q"q', "x;y", "", "a,b=c", "x\r\nSet-Cookie: admin=1", "a\x0bb\x0c", "t\tab", "nul\x00", "\x7f\x80\xff", "back\\slash", "line\n"]
 IRIS = ["/", "/a b", "/中文?q=é", "https://example.com/x?y=1#f", "/%20ok", "//other.example/p", "/a b"]
+STATIC_PATHS = ["/a.txt", "/index.html", "/sub", "/sub/", "/sub/x.html", "/missing", "/目录", "/目录/", "/dîr", "/page", "/", "/empty.bin"]
+STATIC_TREE = [("site5/a.txt", b"alpha"), ("site5/index.html", b"<h1>i</h1>"), ("site5/sub/index.html", b"<h1>s</h1>"), ("site5/sub/x.html", b"x"),
+               ("site5/目录/index.html", b"<h1>cjk</h1>"), ("site5/dîr/index.html", b"<h1>latin</h1>"), ("site5/page.html", b"<p>p</p>"), ("site5/empty.bin", b"")]
 DOWNLOAD_NAMES = [None, None, "a.txt", "a b.txt", "é.txt", "中文.txt", 'q"q.bin', "semi;colon.txt", "x.unknownext"]
 
 
@@ -59,7 +62,14 @@ def gen_recipe(t, kinds=None, files=None):
         r["json_kwargs"] = t.choice([{}, {}, {"ensure_ascii": True}, {"indent": 2}])
     elif kind == "redirect":
         r["url"] = t.choice(IRIS)
+        r["url_object"] = t.draw(3) == 0       # RedirectResponse also accepts a baize URL object
         r["status"] = t.choice([307, 307, 301, 302, 308, 303])
+    elif kind == "staticapp":
+        # the bundled static-file applications produce responses too (file, 304, redirect, handle_404)
+        r["app"] = t.choice(["files", "pages"])
+        r["path"] = t.choice(STATIC_PATHS)
+        r["handle_404"] = t.draw(2) == 0
+        r["status"] = 200
     elif kind == "stream":
         n = t.draw(5)
         r["chunks"] = [t.choice([b"", b"a", b"chunk-%d" % i, bytes(range(256)), b"x" * 1000]) for i in range(n)]
@@ -115,7 +125,15 @@ def build(r, iface, fs=None, hooks=None):
     elif k == "json":
         resp = M.JSONResponse(r["content"], r["status"], headers, **r["json_kwargs"])
     elif k == "redirect":
-        resp = M.RedirectResponse(r["url"], r["status"], headers)
+        url = r["url"]
+        if r.get("url_object"):
+            from baize.datastructures import URL
+            url = URL(url)
+        resp = M.RedirectResponse(url, r["status"], headers)
+    elif k == "staticapp":
+        cls = M.Files if r["app"] == "files" else M.Pages
+        h404 = M.PlainTextResponse("nothing here", 404) if r["handle_404"] else None
+        return cls(fs.path("site5"), handle_404=h404)
     elif k == "stream":
         boom = hooks.get("boom") or ProducerError("producer")
         if iface == "wsgi":
